@@ -1675,6 +1675,11 @@ def clone_rules(ck, fam, seen_fail):
             if not ok and not ok_fail and any(g.startswith("unknown") for g in (got_i, got_e)):
                 ck.incomplete("C02.clone-table", "%s with %s: %s" % (L.fkey(fn), mode, [g for g in (got_i, got_e) if g.startswith("unknown")][0]))
                 continue
+            if not ok and it.mode_undecided:
+                # both sides of a mode-dependent branch were interpreted and joined: the extracted row is not the row of this mode
+                ck.incomplete("C02.clone-table", "%s with %s: the branch condition %s depends on %s but is not evaluable by the check (extracted over both sides: indices %s, elements %s)" % (
+                    L.fkey(fn), mode, it.mode_undecided[0], modep, got_i, got_e))
+                continue
             if not ok and ("C02.clone-table", sub) in seen_fail:
                 continue
             if not ok:
@@ -1748,9 +1753,10 @@ def typestate_size_rules(ck, fam, seen_fail):
         key = L.fkey(fn)
         merged = {}
         for label, it in cases:
+            all_obs = it.obligations + L.exit_obligations(it)        # exit obligations may add to it.unknown (tainted verdicts)
             for u in it.unknown:
                 ck.incomplete("C02.size-pairing", "%s (%s): %s" % (key, fn.loc, u))
-            for (r, sub, ok, det, line) in it.obligations + L.exit_obligations(it):
+            for (r, sub, ok, det, line) in all_obs:
                 if r == "size-vector-length":
                     sub = sub + "/length"
                 elif r != "size-pairing":
